@@ -2145,9 +2145,20 @@ func (f *fragment) bulkImportMutex(rowIDs, columnIDs []uint64) error {
 	// colSet, but we maintain clearIdx as we loop through row and col ids so
 	// that we know how many bits we need to clear and how far through columnIDs
 	// we are.
+	//
+	// The batch is walked backwards so that the LAST entry for a column wins
+	// (the mutex vector reflects storage, which is not updated until
+	// importPositions runs); earlier entries for a column already seen are
+	// skipped. Clear positions are therefore collected from the end of
+	// columnIDs, which never overtakes the read index.
 	clearIdx := 0
-	for i := range rowIDs {
+	seen := make(map[uint64]struct{})
+	for i := len(rowIDs) - 1; i >= 0; i-- {
 		rowID, columnID := rowIDs[i], columnIDs[i]
+		if _, ok := seen[columnID]; ok {
+			continue
+		}
+		seen[columnID] = struct{}{}
 		if existingRowID, found, err := f.mutexVector.Get(columnID); err != nil {
 			return errors.Wrap(err, "getting mutex vector data")
 		} else if found && existingRowID != rowID {
@@ -2156,7 +2167,7 @@ func (f *fragment) bulkImportMutex(rowIDs, columnIDs []uint64) error {
 			if err != nil {
 				return err
 			}
-			columnIDs[clearIdx] = clearPos
+			columnIDs[len(columnIDs)-1-clearIdx] = clearPos
 			clearIdx++
 
 			rowSet[existingRowID] = struct{}{}
@@ -2178,7 +2189,7 @@ func (f *fragment) bulkImportMutex(rowIDs, columnIDs []uint64) error {
 		i++
 	}
 	toSet := rowIDs[:i]
-	toClear := columnIDs[:clearIdx]
+	toClear := columnIDs[len(columnIDs)-clearIdx:]
 
 	return errors.Wrap(f.importPositions(toSet, toClear, rowSet), "importing positions")
 }
